@@ -69,8 +69,8 @@ CHECKS = {
         text=("Proved in Lean: autoscaling = hour-by-hour ceiling (≥ need, < need+1), serverless = raw need, on-premise = "
               "constant ≥ every hourly need, a fixed count is honoured exactly or the rule raises (server and storage), "
               "cumulative need = initial need + running sum of the delta, instances×capacity ≥ cumulative need, active ≤ "
-              "provisioned position by position. NOT yet proved: non-negativity of the deletion-free cumulative need "
-              "over ℚ (checked by the oracle only). Known findings D4 (float cancellation rejects deletion-free models) "
+              "provisioned position by position; and, over ℚ, every running sum of a deletion-free storage delta is ≥ 0, so "
+              "the sign test never rejects a model without deleting jobs (cumulative_nonneg_without_deletion). Known findings D4 (float cancellation rejects deletion-free models) "
               "and D15 (positional combination of different time windows) are reproduced by the model and reported as "
               "KNOWN-FINDING."),
         design="§7 C04"),
